@@ -119,7 +119,7 @@ fn mutate_proof(p: &Envelope, e: &Envelope, rng: &mut Rng) -> Vec<(String, Envel
 }
 
 pub fn run(ctx: &mut Ctx) {
-    let total = ctx.n(100_000, 2_000_000);
+    let total = ctx.n(100_000, 3_000_000);
     for case in ctx.cases(total) {
         ctx.begin_case(case);
         let mut rng = ctx.rng(case);
